@@ -188,6 +188,25 @@ def seed_value(sig, j):
     return float(w) if st.shape == () else w
 
 
+def apply_seeds(tname, outs, seeds):
+    """assign the output sensitivities for the set of active seeds. Default: seed j = a fixed random value on output j.
+    Eigen templates: seed 1 = eigenvalues and the first eigenvector column only, seed 2 = the remaining eigenvector columns
+    (partially seeded eigenvector matrices exercise the per-mode adjoint caches)."""
+    if "EigenSolve" in tname:
+        lam, Q = outs
+        wq = seed_value(Q, 2)
+        tot = np.zeros_like(wq)
+        if 1 in seeds:
+            lam.sensitivity = seed_value(lam, 1)
+            tot[:, 0] += wq[:, 0]
+        if 2 in seeds:
+            tot[:, 1:] += wq[:, 1:]
+        Q.sensitivity = tot
+        return
+    for j in seeds:
+        outs[j - 1].sensitivity = seed_value(outs[j - 1], j)
+
+
 def same(a, b, tol):
     if a is None and b is None:
         return True, 0.0
@@ -206,9 +225,8 @@ def fresh_eval(tname, k, seeds):
     net, x, outs, sigs, tol = TEMPLATES[tname]()
     x.state = designs(x.state.size, k) + (0.5 if "PNorm" in tname else 0.0)
     net.response()
-    for j in seeds:
-        outs[j - 1].sensitivity = seed_value(outs[j - 1], j)
     if seeds:
+        apply_seeds(tname, outs, list(seeds))
         net.sensitivity()
     return [dense(s.state) for s in sigs], [dense(s.sensitivity) for s in sigs]
 
@@ -229,8 +247,7 @@ def replay(tname, steps):
                 elif op == "Response":
                     net.response()
                 elif op == "Seed":
-                    j = stp["args"][0]
-                    outs[j - 1].sensitivity = seed_value(outs[j - 1], j)
+                    apply_seeds(tname, outs, list(stp["seeds"]))
                 elif op == "Sens":
                     net.sensitivity()
                 elif op == "Reset":
@@ -317,9 +334,11 @@ def run(chk, replay=None):
                 prior = True
         return False
     behs = [b for b in behs if any(s["op"] == "Response" for s in b)]
+    # the per-mode adjoint caches of the sparse EigenSolve need three cycles to go stale: deeper loop-shaped histories for it
+    deep = [b for b in emit(12 if thorough else 11, spec="SpecS") if sum(1 for s in b if s["op"] == "Sens") >= 3 and any(s["op"] == "SetInput" for s in b)]
     jobs = []
     for tname in TEMPLATES:
-        for part in par.chunks(behs, 6):
+        for part in par.chunks(behs + (deep if "EigenSolve(sparse" in tname else []), 6 if "EigenSolve(sparse" not in tname else 14):
             jobs.append((tname, part))
     results = par.pmap(_replay_chunk, jobs)
     for (tname, part), out in zip(jobs, results):
